@@ -220,9 +220,13 @@ CHECKS["C04"] = {
             "parser as a rational that rounds to exactly that value - the digit search only accepts digits that pass this test, and the printed text "
             "is proved to parse to them (Proofs/Shortest.v); a fixed-point text reads back as exactly the decimal it shows. Proved: every tag the "
             "writer emits is one the reader recognises or is on the reviewed list of ignored tags, and every mandatory reader column is written; "
-            "the hand-written column and item tables of the reader model equal the regenerated ones.",
+            "the hand-written column and item tables of the reader model equal the regenerated ones. Proved about writer and lexer together "
+            "(Proofs/C04table.v): the aligned atom_site table of any structure is a token sequence (every cell after a separator of blanks or the "
+            "line end of the row before), and the loop the writer prints - its literal header, regenerated from the source, followed by the padded "
+            "rows - is read by the lexer as exactly the column names of the literal and, row by row, the values of the cells, provided every cell "
+            "is a legal unquoted spelling (the property's precondition on identifiers; proved for integers and record names whatever the structure).",
     "design_ref": "DESIGN.md section 6 C04",
-    "note": "read_cif (save_mmcif s) = round5 s is not proved as a theorem; both models are tied to the code by correspondence and the "
+    "note": "read_cif (save_mmcif s) = round5 s is proved up to the lexed atom_site loop, not through the row parser and not for the single items; both models are tied to the code by correspondence and the "
             "specification is evaluated per structure. Trusted: Coq kernel, T5, extraction, harness generator.",
     "technique": "Coq proof over translator-regenerated tag tables (writer tags are reader tags) + executable round-trip specification; differential correspondence of writer and reader models with the crate",
 }
